@@ -12,9 +12,13 @@ RULE = ('cases = (measure, dt, record) through eqsig.im.* on an AccSignal; exact
         'non-trivial = record has >= 3 samples and is not identically zero')
 TRUSTED = [
     'Coq 8.16.1 kernel + vm_compute',
-    'hand-written model coq/model/M_im.v (+ M_displacements.v); tie = correspondence of this run (model/K_C09.v), and, for every measure except '
-    'cav_dp, translator/py2coq_numpy.py (re-run on every check) + the C09_*_is_source theorems: trusted there is only the translator\'s reading of '
+    'hand-written model coq/model/M_im.v (+ M_displacements.v); tie = correspondence of this run (model/K_C09.v), and '
+    'translator/py2coq_numpy.py (re-run on every check) + the C09_*_is_source theorems: trusted there is only the translator\'s reading of '
     'each whitelisted NumPy/SciPy call as a lib/NpList.v primitive',
+    'cav_dp: translator/py2coq_cavdp.py (re-run on every check; loop body as a step function over the carried names, every raising statement '
+    'a res_bind) + C09_cavdp_is_source (at R, dt*pps = 1, at least one whole second: the translated source returns cav_dp 9.81 0.025 dt pps nwin a '
+    'and does not raise; ValueError / IndexError on shorter / empty records proved): trusted there are the readings of np.arange(lo, hi, step), '
+    'v[np.where(mask)], scipy trapezoid(y, x), np.interp, builtin max and the append loops in coq/lib/NpLoop.v',
     'exact arithmetic (rounding not modelled); pi/(2*9.81), 9.81 and 0.025 enter the Q-run as the exact rational values of the floats the code uses',
     'cav_dp: numpy arange length per window is observed by the harness, not modelled (property allows one panel per window)',
     'Q-run vs R-theorems: same polymorphic definitions (homomorphism proved for cumsum/cumtrapz/map)',
@@ -98,9 +102,22 @@ def cavdp_fragile(a, dt):
     return False, pps, nwin
 
 
+def regen_cavdp():
+    """re-translate eqsig/im.py: calc_cav_dp into coq/gen/Gen_cavdp.v (fail closed): C09_cavdp_is_source and the step /
+    raise theorems of Prop_C09 are then re-proved against the loop that is in the repo now"""
+    import os, sys
+    try:
+        sys.path.insert(0, os.path.join(core.VERIF, 'translator'))
+        import py2coq_cavdp
+        py2coq_cavdp.regenerate(repo=core.REPO)
+    except Exception as e:
+        return 'py2coq_cavdp: %s: %s' % (type(e).__name__, e)
+    return None
+
+
 def run(rep, rng, tier):
     from harness.props.c08 import regen_quadrature      # re-translate the sources; a failure breaks the tie (fail closed)
-    rep.prove('Prop_C09', gen_failed=regen_quadrature())
+    rep.prove('Prop_C09', gen_failed=regen_quadrature() or regen_cavdp())
     cases = []
     fragile = 0
     n_exact, n_tol = (25, 8) if tier == 'quick' else (250, 60)
